@@ -34,7 +34,6 @@ W = dict(p_add=8, p_add_many=5, p_remove=5, p_remove_many=3, p_remove_filtered=3
          p_update_filtered=0, g_add=3, g_add_many=1, g_remove=2, g_remove_many=1, g_remove_filtered=1, rbac=3,
          clear=0.7, load=0.7, save=0.5, build=0, flags=0, query=8, probe=1)
 KNOWN_EMPTY_KEY = "C19/empty-key-request"
-KNOWN_SHORT_REQ = "C19/short-request-indexed-first"
 # ops whose result is (or contains) the p rule list in storage order: compared as sorted lists
 P_ORDERED = {52, 53, 61, 65, 66, 67, 69, 70, 62, 63, 64}
 A = mgmt.ATOMS.a
@@ -75,12 +74,7 @@ def make_spec(order):
         for i, (op, a, b) in enumerate(zip(ops, obs, fobs)):
             if canon(op, a) != canon(op, b):
                 tag = None
-                enabled = ([True] + [bool(o[1]) for o in ops[:i] if o[0] == 38])[-1]
-                if op[0] == 50 and len(op[1]) <= max(order):
-                    # FastEnforcer.enforce indexes the request before the enabled/arity checks: IndexError
-                    if not enabled and a[0] == [0, 1] and b[0][0] == 999:
-                        tag = KNOWN_SHORT_REQ
-                elif op[0] in (50, 51) and all(op[1][x] == 0 for x in order if x < len(op[1])):
+                if op[0] in (50, 51) and len(op[1]) > max(order) and all(op[1][x] == 0 for x in order):
                     tag = KNOWN_EMPTY_KEY
                 what = "decision" if op[0] in (50, 51) else ("management result / policy" if op[0] < 50 else "query result")
                 return [(i, f"FastEnforcer and Enforcer differ ({what})", tag)]
@@ -92,9 +86,10 @@ def make_spec(order):
 def known_probe(chk):
     kind = mgmt.KINDS["acl"]
     ops = [(1, 0, [A("alice"), A("data1"), A("read")]), (50, [0, 0, 0])]
-    ops2 = [(1, 0, [A("alice"), A("data1"), A("read")]), (38, False), (50, [A("alice")])]
-    mgmt.run_cases(chk, kind, [([], True, ops, make_spec([2, 1])), ([], True, ops2, make_spec([2, 1]))], None,
-                   label="known-finding-probe")
+    mgmt.run_cases(chk, kind, [([], True, ops, make_spec([2, 1]))], None, label="known-finding-probe")
+    # repaired defect C19/short-request-indexed-first: a request that does not reach a key position, enforcement off / on
+    ops2 = [(1, 0, [A("alice"), A("data1"), A("read")]), (38, False), (50, [A("alice")]), (38, True), (50, [A("alice")])]
+    mgmt.run_cases(chk, kind, [([], True, ops2, make_spec([2, 1]))], None, label="short-request-probe")
 
 
 def run_differential(chk, n):
@@ -109,6 +104,22 @@ def run_differential(chk, n):
             g = mgmt.Gen(rng, kind, W)
             rows = g.rows(rng.randint(0, 8))
             ops = [o for o in g.history(rng.randint(3, 16)) if not (o[0] in (50, 51) and all(v == 0 for v in o[1]))]
+            prows = [r for pt, r in rows if pt == 0]
+            if len(prows) >= 2 and rng.random() < 0.35:
+                # a batch update of rules that ARE present (right after the load), each replacement changing indexed
+                # fields: on the index an item assignment is remove + append, so positions move between the pairs
+                olds = rng.sample(prows, rng.randint(2, min(3, len(prows))))
+                news, taken = [], {tuple(r) for r in prows}
+                for o in olds:
+                    for _ in range(20):
+                        nw = list(o)
+                        for x in order:
+                            nw[x] = g.fresh(0)[x]
+                        if tuple(nw) not in taken:
+                            break
+                    taken.add(tuple(nw))
+                    news.append(nw)
+                ops.insert(0, (7, [list(o) for o in olds], news))
             if rng.random() < 0.15:          # enforcement switched off (and maybe on again) somewhere
                 ops.insert(rng.randrange(len(ops)), (38, False))
                 if rng.random() < 0.5:
@@ -644,9 +655,6 @@ def main():
                        "at the same position (FastPolicy hard-codes two index levels; other lengths are unsupported)",
                        "priority effects are inadmissible for FastEnforcer (its buckets are unordered sets; "
                        "C19_priority_order_refuted shows that even an insertion-ordered bucket would not keep the plain order)",
-                       "requests reach every cache-key position (FastEnforcer indexes the request before the arity / "
-                       "enabled checks: a shorter request raises IndexError even when enforcement is disabled — modelled, "
-                       "excluded from decide_equal by its hypothesis)",
                        "only the first p / g definition is loaded by FastModel (add_def returns None): models with g2/p2 "
                        "and EnforceContext requests are outside 'ACL and RBAC models'",
                        "the order in which a Python set is iterated is unspecified: iterations are compared as sets"]
